@@ -176,6 +176,9 @@ func genFunc(cs *ContractSet, l *Loaded, c *Contract, wrap bool, splitCallee, sp
 	func() {
 		defer func() {
 			if r := recover(); r != nil {
+				if os.Getenv("GOVC_DEBUG") == "2" {
+					panic(r)
+				}
 				switch e := r.(type) {
 				case oosErr:
 					fr.Err = "out-of-subset: " + e.msg
@@ -322,6 +325,20 @@ func cmdCheck(args []string) int {
 	if *tier == "thorough" {
 		timeoutS = 90
 	}
+	var ov map[string][]byte
+	if *overlay != "" {
+		ov = map[string][]byte{}
+		for _, kv := range strings.Split(*overlay, ",") {
+			parts := strings.SplitN(kv, "=", 2)
+			data, err := os.ReadFile(parts[1])
+			if err != nil {
+				fmt.Println("ERROR overlay:", err)
+				return 2
+			}
+			ov[parts[0]] = data
+			overlayFiles[parts[0]] = parts[1]
+		}
+	}
 	cs, err := loadContracts(*repo, filepath.Join(*verif, "contracts", "trusted"))
 	if err != nil {
 		fmt.Println("ERROR contracts:", err)
@@ -343,20 +360,6 @@ func cmdCheck(args []string) int {
 	if len(sel) == 0 {
 		fmt.Printf("ERROR no contracts carry property %s\n", *prop)
 		return 2
-	}
-	var ov map[string][]byte
-	if *overlay != "" {
-		ov = map[string][]byte{}
-		for _, kv := range strings.Split(*overlay, ",") {
-			parts := strings.SplitN(kv, "=", 2)
-			data, err := os.ReadFile(parts[1])
-			if err != nil {
-				fmt.Println("ERROR overlay:", err)
-				return 2
-			}
-			ov[parts[0]] = data
-			overlayFiles[parts[0]] = parts[1]
-		}
 	}
 	l, err := loadPackages(*repo, sortedKeysB(pkgset), ov)
 	if err != nil {
